@@ -27,6 +27,14 @@ func init() {
 }
 
 func c11Rules(tier string) []Rule {
+	rules := c11RulesBase(tier)
+	rules = append(rules, usageBookkeepingRules("C11")...)
+	// a pod update always refreshes the anti-affinity index, also when the node usage update fails (node not tracked yet)
+	rules = append(rules, POST{ID: "C11.AAIDX1", Fn: "(*state.Cluster).UpdatePod", From: "", Must: []string{`^call \(\*state\.Cluster\)\.updatePodAntiAffinities\(\$0, \$2\)$`}, Note: "every path through UpdatePod updates the anti-affinity index"})
+	return rules
+}
+
+func c11RulesBase(tier string) []Rule {
 	const (
 		nfnc = "(*state.Cluster).newStateFromNodeClaim"
 		nfn  = "(*state.Cluster).newStateFromNode"
